@@ -4,6 +4,9 @@
 #   impl_seq(cases)   cases = [[(pattern, u), ...], ...]   one EcmaRegexValidator per case (hook regex_validate_seq)
 #                     -> per case: list of ("ok",) | ("err", msgclass)   or   ("panic", kind) for the whole case
 #   model_seq(cases)  -> per case: list of ("ok",) | ("err", msgclass) | ("panic", site) | ("fuel",) | ("nr",)
+#                     (the `debug` argument of the model_* functions is kept for compatibility and ignored: since the
+#                     digit accumulators saturate, debug and release builds behave identically; `profile="debug"` on
+#                     the impl_* side still selects the debug harness)
 #   impl_rule(files)  files = [[(pattern, flags), ...], ...]  one JS file per entry, one `new RegExp("..","..");`
 #                     per line, linted with only no-invalid-regexp -> per file: list of 0/1  or ("panic", msg)
 #   model_rule(files) -> per file: list of 0 | 1 | 2 (panic) | 3 (fuel) | 4 (not reached after a panic)
@@ -480,7 +483,8 @@ def _v8_clamped_bounds(pattern):
 
 def classify_v8_disagreement(pattern, flags, impl_reports, v8_throws, aux=None):
     """impl_reports: True/False, or "panic".  aux (optional, computed by aux_for when absent):
-    {impl_u, impl_n: True=invalid, "panic"; v8_u, v8_n: True=throws; v8_trunc_n: V8 on the truncated pattern, no u}."""
+    {impl_u, impl_n: True=invalid, "panic"; v8_u, v8_n: True=throws; v8_trunc_n: V8 on the truncated pattern, no u;
+     v8_caret_u, v8_caret_n: V8 on the pattern with every `[^` rewritten `[\\^`}."""
     if impl_reports is not True and impl_reports is not False and impl_reports != "panic":
         return None
     if "v" in flags:
@@ -508,7 +512,8 @@ def classify_v8_disagreement(pattern, flags, impl_reports, v8_throws, aux=None):
             causes.add("utf16_length_cut_without_u")
         elif _v8_clamped_bounds(pattern) and aux["impl_" + m] is True:
             causes.add("v8_clamps_quantifier_bounds_to_2_31")
-        elif _NEG_CLASS_DASH.search(pattern) and aux["impl_" + m] is True:
+        elif "[^" in pattern and aux.get("v8_caret_" + m) == aux["impl_" + m]:
+            # V8 agrees with the implementation once every `[^` is written `[\^` (the way the implementation reads it)
             causes.add("class_negation_caret_parsed_as_class_atom")
         elif m == "u" and _NUL_DIGIT.search(pattern):
             causes.add("nul_escape_followed_by_digit_under_u")
@@ -530,11 +535,14 @@ def aux_for(pairs):
     v8u = v8_verdicts([(p, "u") for p in pats])
     v8n = v8_verdicts([(p, "") for p in pats])
     v8t = v8_verdicts([(truncated_as_seen(p), "") for p in pats])
+    caret = [p.replace("[^", "[\\^") for p in pats]
+    v8cu = v8_verdicts([(p, "u") for p in caret])
+    v8cn = v8_verdicts([(p, "") for p in caret])
 
     def iv(r):
         return "panic" if isinstance(r, tuple) else (r[0][0] == "err")
-    return [{"impl_u": iv(a), "impl_n": iv(b), "v8_u": c, "v8_n": d, "v8_trunc_n": e}
-            for a, b, c, d, e in zip(iu, inn, v8u, v8n, v8t)]
+    return [{"impl_u": iv(a), "impl_n": iv(b), "v8_u": c, "v8_n": d, "v8_trunc_n": e, "v8_caret_u": f, "v8_caret_n": g}
+            for a, b, c, d, e, f, g in zip(iu, inn, v8u, v8n, v8t, v8cu, v8cn)]
 
 
 # ---------------------------------------------------------------------------------------------------------
@@ -654,6 +662,11 @@ def compare_all(tier="quick", seed=1):
     t0 = time.time()
     rng = random.Random(seed)
     build_harness("release")
+    # regenerate the unicode tables from /repo (written only when they change), rebuild the model, re-extract
+    sh([sys.executable, os.path.join(ROOT, "translate", "gen_unicode.py")], timeout=120)
+    ok, out = coq_make(["Regex/RuleDecision.vo"])
+    if not ok:
+        raise Infra("regex model does not compile:\n" + out[-3000:])
     exe, msg = build_model("regex")
     if exe is None:
         raise Infra("regex model driver does not build:\n" + msg[-3000:])
